@@ -368,3 +368,175 @@ pub fn emoji() -> &'static Emoji {
 pub fn bijoy(text: &str) -> String {
     poriborton::bijoy2000::unicode_to_bijoy(text)
 }
+
+// ---------------------------------------------------------------------------------------------
+// fixed-layout composition rules (C12) and old-style reph (C13), written from the statements
+
+/// Punctuation after which automatic vowel forming applies — only the undisputed members.
+pub const PUNCT_SURE: &str = "`~!@#$%^+*-_=\\|\"/;:,./?><()[]{}";
+/// Characters whose class the statements leave open; a step whose *previous* character is one of
+/// these (or whose key value is U+09C4 after one of them) is not judged.
+pub fn class_open(c: char) -> bool {
+    matches!(c, '\'' | '&' | '\u{0964}' | '\u{0965}' | '\u{09CE}' | '\u{09E0}' | '\u{09E1}' | '\u{098C}' | '\u{09C4}' | '\u{09E2}' | '\u{09E3}')
+}
+
+#[derive(Clone, Copy, Debug, PartialEq, Eq, Hash)]
+pub enum Rule {
+    Append,
+    ZofolaJoiner,
+    Zofola,
+    AutoVowel,
+    ChandraSwap,
+    HasantaSign,
+    TraditionalKar,
+    SignPlain,
+    DoubleHasanta,
+    LengthMark,
+    Reph,
+    Backspace,
+    Unjudged,
+}
+
+#[derive(Clone, Copy, Debug)]
+pub struct FixedOpts {
+    pub vowel: bool,
+    pub chandra: bool,
+    pub kar: bool,
+    pub reph: bool,
+}
+
+/// Expected text after a key with value `value` when the text before is `prev`
+/// (old vowel-sign order off).  `None` text = judged elsewhere / not judged.
+pub fn compose_step(prev: &str, value: &str, o: FixedOpts) -> (Rule, Option<String>) {
+    let last = prev.chars().last();
+    let mut out = prev.to_string();
+    if value == ZOFOLA {
+        let mut it = prev.chars().rev();
+        if it.next() == Some(RA) && it.next() != Some(HASANTA) {
+            out.push(ZWJ);
+            out.push_str(value);
+            return (Rule::ZofolaJoiner, Some(out));
+        }
+        out.push_str(value);
+        return (Rule::Zofola, Some(out));
+    }
+    if value == REPH && o.reph {
+        return (Rule::Reph, None);
+    }
+    if let Some(l) = last {
+        if class_open(l) {
+            return (Rule::Unjudged, None);
+        }
+    }
+    let single = value.chars().count() == 1;
+    let c = value.chars().next().unwrap_or_default();
+    if single && is_any_sign(c) {
+        let after_vowelish = last.map(|l| is_indep_vowel(l) || is_any_sign(l)).unwrap_or(false);
+        let after_punct = last.map(|l| PUNCT_SURE.contains(l)).unwrap_or(false);
+        if o.vowel && (prev.is_empty() || after_vowelish || after_punct) {
+            out.push(sign_to_vowel(c).unwrap());
+            return (Rule::AutoVowel, Some(out));
+        }
+        if o.chandra && last == Some(CHANDRA) {
+            out.pop();
+            out.push(c);
+            out.push(CHANDRA);
+            return (Rule::ChandraSwap, Some(out));
+        }
+        if last == Some(HASANTA) {
+            out.pop();
+            out.push(sign_to_vowel(c).unwrap());
+            return (Rule::HasantaSign, Some(out));
+        }
+        if o.kar && last.map(is_consonant).unwrap_or(false) && matches!(c, '\u{09C1}' | '\u{09C2}' | '\u{09C3}') {
+            out.push(ZWNJ);
+            out.push(c);
+            return (Rule::TraditionalKar, Some(out));
+        }
+        out.push(c);
+        return (Rule::SignPlain, Some(out));
+    }
+    if single && c == HASANTA && last == Some(HASANTA) {
+        out.push(ZWNJ);
+        return (Rule::DoubleHasanta, Some(out));
+    }
+    if single && c == LENGTH_MARK && last == Some(HASANTA) {
+        out.pop();
+        out.push('\u{0994}');
+        return (Rule::LengthMark, Some(out));
+    }
+    out.push_str(value);
+    (Rule::Append, Some(out))
+}
+
+/// Position where old-style reph belongs in a well-formed text; `None` if `p` is not in the
+/// syllable grammar  Unit* ; Unit = Cluster (Sign|Vowel)? Chandra? | Vowel Chandra? | Other ;
+/// Cluster = C (Hasanta C)*.
+pub fn reph_position(p: &str) -> Option<usize> {
+    let cs: Vec<char> = p.chars().collect();
+    let n = cs.len();
+    if cs.iter().any(|c| class_open(*c)) {
+        return None; // a character whose class the statement leaves open: conservation only
+    }
+    let mut i = 0;
+    let mut last_cluster: Option<usize> = None;
+    let mut last_unit_is_final_syllable = false;
+    while i < n {
+        let c = cs[i];
+        if is_consonant(c) && c != KHANDA_TA {
+            let st = i;
+            i += 1;
+            while i + 1 < n && cs[i] == HASANTA && is_consonant(cs[i + 1]) && cs[i + 1] != KHANDA_TA {
+                i += 2;
+            }
+            if i < n && (is_sign(cs[i]) || is_indep_vowel(cs[i])) {
+                i += 1;
+            }
+            if i < n && cs[i] == CHANDRA {
+                i += 1;
+            }
+            last_cluster = Some(st);
+            last_unit_is_final_syllable = i == n;
+        } else if is_indep_vowel(c) {
+            i += 1;
+            if i < n && cs[i] == CHANDRA {
+                i += 1;
+            }
+            last_cluster = None;
+            last_unit_is_final_syllable = false;
+        } else if c == HASANTA || is_any_sign(c) || c == CHANDRA || c == ZWNJ || c == ZWJ || c == LENGTH_MARK || class_open(c) {
+            return None;
+        } else {
+            i += 1;
+            last_cluster = None;
+            last_unit_is_final_syllable = false;
+        }
+    }
+    Some(match last_cluster {
+        Some(st) if last_unit_is_final_syllable => st,
+        _ => n,
+    })
+}
+
+/// Conservation (always) and placement (well-formed `p`) of the reph key's effect.
+pub fn reph_check(p: &str, now: &str) -> Result<bool, String> {
+    let pc: Vec<char> = p.chars().collect();
+    let nc: Vec<char> = now.chars().collect();
+    let conserved = nc.len() == pc.len() + 2
+        && (0..=pc.len()).any(|i| nc[..i] == pc[..i] && nc[i] == RA && nc[i + 1] == HASANTA && nc[i + 2..] == pc[i..]);
+    if !conserved {
+        return Err(format!("conservation: {p:?} became {now:?}, which is not {p:?} with one reph inserted"));
+    }
+    match reph_position(p) {
+        Some(pos) => {
+            let mut e: String = pc[..pos].iter().collect();
+            e.push_str(REPH);
+            e.extend(pc[pos..].iter());
+            if e != now {
+                return Err(format!("placement: {p:?} became {now:?}, expected {e:?}"));
+            }
+            Ok(pos != pc.len())
+        }
+        None => Ok(false),
+    }
+}
